@@ -26,7 +26,7 @@ import (
 // the reason why the order cannot reach query results or file contents.
 
 func init() {
-	Register(&Rule{ID: "R-ORD-1", Props: []string{"C12", "C05"}, Floor: 30,
+	Register(&Rule{ID: "R-ORD-1", Props: []string{"C12", "C05", "C01"}, Floor: 30,
 		Doc:      "no map iteration (range over a map, sync.Map.Range callback) decides the order of data: loop bodies contain only key-addressed writes, deletes, integer counters, constant flags and pure calls; slices accumulated in map order are sorted before use or listed as feeding log lines / clean-up only",
 		Controls: []string{"CtlMapOrderAppend", "CtlSyncMapOrderAppend", "keysOf"},
 		Run:      ruleOrd1})
@@ -53,6 +53,16 @@ var ordExceptions = map[string]string{
 	"lib/query.Update: map-ordered updateRecords": "see fileInfos",
 	"lib/query.Delete: map-ordered fileInfos":     "parallel to deletedCounts; ExecuteStatement prints one log line per table and sums the counts",
 	"lib/query.Delete: map-ordered deletedCounts": "see fileInfos",
+}
+
+// ordPaired: exceptions that are only valid while the two slices are filled by
+// one and the same loop (element i of one belongs to element i of the other).
+// Filling them in two separate map iterations pairs counts with the wrong tables.
+var ordPaired = map[string]string{
+	"lib/query.Update: map-ordered fileInfos":     "lib/query.Update: map-ordered updateRecords",
+	"lib/query.Update: map-ordered updateRecords": "lib/query.Update: map-ordered fileInfos",
+	"lib/query.Delete: map-ordered fileInfos":     "lib/query.Delete: map-ordered deletedCounts",
+	"lib/query.Delete: map-ordered deletedCounts": "lib/query.Delete: map-ordered fileInfos",
 }
 
 type ordEngine struct {
@@ -194,6 +204,7 @@ func ruleOrd1(c *Ctx) {
 	producerSeen := map[string]bool{}
 	originSinks := map[string][]string{}
 	originPos := map[string]string{}
+	originLoop := map[string]ssa.Instruction{}
 	var originOrder []string
 	for len(work) > 0 {
 		w := work[0]
@@ -209,6 +220,7 @@ func ruleOrd1(c *Ctx) {
 			originSinks[w.origin] = nil
 			originPos[w.origin] = w.opos
 			originOrder = append(originOrder, w.origin)
+			originLoop[w.origin] = w.from
 		}
 		for _, u := range uses {
 			switch u.kind {
@@ -253,6 +265,12 @@ func ruleOrd1(c *Ctx) {
 	for _, o := range originOrder {
 		sinks := dedup(originSinks[o])
 		if why, ok := ordExceptions[o]; ok {
+			if partner, paired := ordPaired[o]; paired {
+				if originLoop[partner] == nil || originLoop[partner] != originLoop[o] {
+					c.Bad(o, originPos[o], "this slice and its partner ("+partner+") are consumed pairwise (element i with element i) but are not filled by the same loop: two separate map iterations run in independent random orders, so counts are attached to the wrong tables")
+					continue
+				}
+			}
 			c.Ok(o, originPos[o], "listed exception: "+why)
 			continue
 		}
